@@ -145,6 +145,16 @@ class C18(props.Prop):
             ] + rng.choice([[], ['--replace-by-variable']])
         else:
             spec['opts'] += workload.gen_mutator_opts(rng, reg, p=0.3)
+        # comparison options and a cross-check command (a sequential run is
+        # sequential whatever is compared); drawn from a generator of their
+        # own so that the rest of the case stays what it was
+        import random
+        r2 = random.Random(spec['seed'] * 13 + 7)
+        if r2.random() < 0.35:
+            from .c01 import add_compare
+            add_compare(r2, spec, p_cc=0.7)
+            if spec.get('model_cc'):
+                spec['model_cc']['canon_fresh'] = False
         return {'prop': 'C18', 'runs': [spec]}
 
     def run(self, case):
